@@ -164,6 +164,33 @@ MembershipWithinModel(o, cx) ==
 EveryElementWritten(o, cx) ==
   \A m \in OModels(o) : o.models[m].files # <<>> => \A i \in cx.reach[m] : Eff(o, i) # {}
 
+\* element n is written to file f: no node on the chain from the root to n carries a local set that lacks f
+RECURSIVE InFileF(_, _, _, _)
+InFileF(o, i, f, fuel) == /\ (OFm(o, i) = {} \/ f \in OFm(o, i))
+                          /\ (fuel = 0 \/ o.n[i].par.t # "e" \/ InFileF(o, o.n[i].par.v, f, fuel - 1))
+InFile(o, i, f) == InFileF(o, i, f, Fuel(o))
+\* what serialising file f and loading that text on its own must give: the attributed elements, in document order
+ExpCd(o, i) == IF Len(OCont(o, i)) = 1 /\ OCont(o, i)[1].t = "c" /\ OKnown(o, i) /\ OKindRec(o, i).mode \in {"Characters", "Mixed"}
+               THEN OCont(o, i)[1].v ELSE [k |-> "none", v |-> ""]
+FileTextExact(o, cx) ==
+  \A m \in OModels(o) : \A j \in 1..Len(o.models[m].files) :
+     LET f == o.models[m].files[j] IN
+     \* every file of the model has a text: it contains at least the root element
+     /\ f \in OFm(o, o.models[m].root)
+     /\ "ser" \in DOMAIN o.f[f] =>
+          LET D == OFileDfs(o, o.models[m].root, f, 0, 0, Fuel(o)) IN
+          /\ o.f[f].ser.t = "ok"
+          /\ o.f[f].ser.els = [q \in 1..Len(D) |-> <<D[q][1], OName(o, D[q][2]), ExpCd(o, D[q][2])>>]
+\* removing a file removes exactly the elements attributed to it alone and leaves the other files' content unchanged
+RemoveFileExact(o, cx, ev, res, o2, cx2) ==
+  (ev.op = "RemoveFile" /\ \E j \in 1..Len(o.models[ev.m].files) : o.models[ev.m].files[j] = ev.f) =>
+     LET m == ev.m
+         others == PSeqToSet(o.models[m].files) \ {ev.f} IN
+     /\ PSeqToSet(o2.models[m].files) = others
+     /\ cx.reach[m] \ cx2.reach[m] = {i \in cx.reach[m] : i # o.models[m].root /\ \A g \in others : ~InFile(o, i, g)}
+     /\ \A g \in others : o2.f[g].dfs = o.f[g].dfs
+                           /\ ("ser" \in DOMAIN o.f[g] /\ "ser" \in DOMAIN o2.f[g] => o2.f[g].ser.els = o.f[g].ser.els)
+
 \* ---------------------------------------------------------------------------------------------- C11, C12 (action)
 FailedNoEffect(o, ev, res, o2) == res.t = "err" => o2 = o
 NoPanicNoHangNoSpuriousLock(o, ev, res, o2) ==
@@ -206,13 +233,14 @@ StatePropsCx(o, cx) ==
    PathIsAncestorNames |-> PathIsAncestorNames(o, cx),
    RefoExact |-> RefoExact(o, cx), ReportExact |-> ReportExact(o, cx), ReportIffUnresolvable |-> ReportIffUnresolvable(o, cx),
    MembershipWithinParent |-> MembershipWithinParent(o, cx), MembershipWithinModel |-> MembershipWithinModel(o, cx),
-   EveryElementWritten |-> EveryElementWritten(o, cx)]
+   EveryElementWritten |-> EveryElementWritten(o, cx), FileTextExact |-> FileTextExact(o, cx)]
 StateProps(o) == StatePropsCx(o, Ctx(o))
 ActionPropsCx(o, cx, ev, res, o2, cx2) ==
   [FailedNoEffect |-> FailedNoEffect(o, ev, res, o2),
    NoPanicNoHangNoSpuriousLock |-> NoPanicNoHangNoSpuriousLock(o, ev, res, o2),
    StaleCallsFail |-> StaleCallsFail(o, cx, ev, res, o2),
-   RefsFollow |-> RefsFollow(o, cx, ev, res, o2, cx2)]
+   RefsFollow |-> RefsFollow(o, cx, ev, res, o2, cx2),
+   RemoveFileExact |-> RemoveFileExact(o, cx, ev, res, o2, cx2)]
 ActionProps(o, ev, res, o2) == ActionPropsCx(o, Ctx(o), ev, res, o2, Ctx(o2))
 PropertyOf(p) ==
   CASE p \in {"TreeOK", "NavigationAgrees", "StaleHandlesInert", "StaleCallsFail"} -> "C03"
